@@ -34,6 +34,7 @@ pub const SUBS: &[SubDef] = &[
     SubDef { prop: "C05", name: "empty_only", oracle: empty_only },
     SubDef { prop: "C05", name: "overlong", oracle: overlong },
     SubDef { prop: "C05", name: "tag_arbitrary", oracle: tag_arbitrary },
+    SubDef { prop: "C05", name: "inner_overlong", oracle: inner_overlong },
 ];
 
 fn run(ctx: &Ctx) {
@@ -43,6 +44,7 @@ fn run(ctx: &Ctx) {
     ctx.run_tape("empty_only", empty_only, ctx.pick(3_000, 100_000), 64);
     ctx.run_tape("overlong", overlong, ctx.pick(6_000, 300_000), 700);
     ctx.run_tape("tag_arbitrary", tag_arbitrary, ctx.pick(10_000, 500_000), 300);
+    ctx.run_tape("inner_overlong", inner_overlong, ctx.pick(8_000, 400_000), 300);
 }
 
 type P = fn(&[u8]) -> IResult<&[u8], TlsExtension>;
@@ -352,6 +354,64 @@ fn overlong(t: &mut Tape, obs: &mut Obs) -> R {
             Err(_) => {}
         }
     }
+    Ok(())
+}
+
+/// A top-level length field inside the content (server-name list, group / signature-algorithm list, point-format / PSK-mode /
+/// renegotiation vector, ALPN list, OID-filter list, the three ESNI vectors) raised beyond what the extension body holds:
+/// the extension's own length is intact, but the inner field exceeds its enclosing block, so no value may be returned.
+/// (Entries nested inside those lists are decoded leniently by design - the list stops early - and are not asserted;
+/// neither are the optional SCT list and supported_versions, whose inner length the decoder ignores.)
+fn inner_overlong(t: &mut Tape, obs: &mut Obs) -> R {
+    const TOP: [&str; 8] = ["sni.list", "u16list", "u8vec", "alpn.list", "oid.list", "esni.ks", "esni.rd", "esni.sni"];
+    let idx = t.pick(&[0usize, 3, 4, 5, 7, 19, 20, 24, 25, 0, 7]);
+    let mut m = gen_ext_known(t, idx, 200);
+    if let MExt::Sni(l) = &mut m {
+        if l.is_empty() {
+            l.push((0, b"example.com".to_vec()));
+        }
+    }
+    let mut e = Enc::new();
+    m.encode(&mut e);
+    let cands: Vec<_> = e.lens.iter().filter(|f| TOP.contains(&f.label)).cloned().collect();
+    if cands.is_empty() {
+        return Ok(());
+    }
+    let f = &cands[t.below(cands.len())];
+    let mut buf = e.buf.clone();
+    let ext_end = buf.len();
+    let remaining = ext_end - (f.off + f.width);
+    let max = (1usize << (8 * f.width)) - 1;
+    if remaining >= max {
+        return Ok(());
+    }
+    let v = match t.below(3) {
+        0 => remaining + 1,
+        1 => max,
+        _ => t.range(remaining + 1, max),
+    };
+    set_be(&mut buf[f.off..f.off + f.width], v as u64);
+    // bytes after the extension that would satisfy the lying length if the decoder were not confined
+    buf.extend(std::iter::repeat(0u8).take(t.below(3) * 40));
+    let ty = m.wire_type();
+    obs.nontrivial(fnv64(&buf));
+    obs.sample_class(&format!("{}:{}", m.name(), f.label), || json!({"extension": m.name(), "field": f.label, "declared": v, "available": remaining, "hex": hex_short(&buf)}));
+    for (dn, p) in DISPATCHERS {
+        if !recognised(dn, ty) {
+            continue;
+        }
+        let got = call(p, &buf)?;
+        ensure!(got.is_err(), format!("C05:inner-overlong:{}:{}", dn, f.label), "{} dispatcher: {} with its {} length raised to {} (only {} bytes remain in the extension) was decoded to {}", dn, m.name(), f.label, v, remaining, trunc(&format!("{:?}", got)));
+    }
+    for (pn, pty, p) in TAG_PARSERS {
+        if pty == ty {
+            let got = call(p, &buf)?;
+            ensure!(got.is_err(), format!("C05:inner-overlong:{}:{}", pn, f.label), "{}: inner length {} raised to {} with {} bytes available was accepted: {}", pn, f.label, v, remaining, trunc(&format!("{:?}", got)));
+        }
+    }
+    // inside a list: the element must not be yielded
+    let r = guard("parse_tls_extensions", || parse_tls_extensions(&buf[..ext_end]).map(|(_, v)| v.len()).map_err(|_| ()))?;
+    ensure!(r != Ok(1), "C05:inner-overlong:list", "parse_tls_extensions yielded the malformed {} extension", m.name());
     Ok(())
 }
 
